@@ -116,7 +116,8 @@ class ModState:
         except Exception:
             return v
 
-    def capture(self):
+    def capture(self, copy=True):
+        cp = self._copy if copy else (lambda v: v)
         snap = {}
         for m in _repo_modules():
             d = {}
@@ -125,7 +126,7 @@ class ModState:
                     continue
                 if getattr(v, "__module__", None) == "typing":
                     continue
-                d[k] = self._copy(v)
+                d[k] = cp(v)
             snap[("m", m.__name__)] = (m, d)
             for k, c in list(vars(m).items()):
                 if isinstance(c, type) and getattr(c, "__module__", "") == m.__name__:
@@ -136,11 +137,12 @@ class ModState:
                         if not _is_state_value(cv) or isinstance(
                                 cv, (staticmethod, classmethod, property)) or hasattr(cv, "__get__"):
                             continue
-                        cd[ck] = self._copy(cv)
+                        cd[ck] = cp(cv)
                     snap[("c", m.__name__, k)] = (c, cd)
         return snap
 
-    def restore(self, snap=None):
+    def restore(self, snap=None, copy=True):
+        cp = self._copy if copy else (lambda v: v)
         snap = snap or self.snap
         for key, (obj, d) in snap.items():
             cur = vars(obj)
@@ -156,7 +158,7 @@ class ModState:
                             v, (staticmethod, classmethod, property)) and not hasattr(v, "__get__"):
                         delattr(obj, k)
             for k, v in d.items():
-                setattr(obj, k, self._copy(v))
+                setattr(obj, k, cp(v))
 
 
 def base_config(root, overrides=None, handlers="default"):
@@ -187,6 +189,55 @@ def base_config(root, overrides=None, handlers="default"):
                 cp.add_section(sec)
             cp.set(sec, opt, str(val))
     return cp
+
+
+_hot_lines = None
+
+
+def shared_store_lines():
+    """Static scan of the repository's code objects: source lines that store to
+    module globals (STORE_GLOBAL / DELETE_GLOBAL) or to an attribute of an
+    object reached through a global or through another attribute
+    (Class.attr = ..., self.server.attr = ...).  These are the places where
+    workers can share state; the scheduler pre-empts around them."""
+    global _hot_lines
+    if _hot_lines is not None:
+        return _hot_lines
+    import dis
+    out = {}
+
+    def walk(code):
+        prev = None
+        for ins in dis.get_instructions(code):
+            hot = False
+            if ins.opname in ("STORE_GLOBAL", "DELETE_GLOBAL"):
+                hot = True
+            elif ins.opname in ("STORE_ATTR", "DELETE_ATTR") and prev is not None and \
+                    prev.opname in ("LOAD_ATTR", "LOAD_GLOBAL", "LOAD_NAME", "LOAD_DEREF"):
+                hot = True
+            if hot:
+                ln = ins.positions.lineno if ins.positions else None
+                if ln:
+                    out.setdefault(code.co_filename, set()).add(ln)
+            prev = ins
+        for c in code.co_consts:
+            if isinstance(c, types.CodeType):
+                walk(c)
+
+    for m in _repo_modules():
+        f = getattr(m, "__file__", None)
+        if not f or not f.endswith(".py"):
+            continue
+        try:
+            with simfs.real_open(f, "rb") as fh:
+                code = compile(fh.read(), f, "exec", dont_inherit=True)
+        except Exception:
+            continue
+        for c in code.co_consts:
+            if isinstance(c, types.CodeType):
+                walk(c)
+    _hot_lines = out
+    return out
 
 
 class ForkSim:
@@ -337,18 +388,20 @@ class ForkSim:
 
 
 class ProcMem:
-    """Private copy of the repository's module-level data per simulated
-    process, swapped in and out at context switches (fork semantics)."""
+    """Private copy of the repository's module-level (and class-level) data per
+    simulated process, swapped in and out at context switches between actors of
+    different processes: a lazy table filled by one child is invisible to its
+    siblings and to the parent, as with a real fork."""
 
     def __init__(self, run):
         self.run = run
         self.ms = _modstate
         self.images = {}
-        self.active = 0
+        self.swaps = 0
 
     def fork(self, parent, child):
-        # the parent is running: its memory is what is installed right now
-        self.images[child] = self.ms.capture()
+        # the forking parent is running: its memory is what is installed now
+        self.images[child] = self.ms.capture(copy=True)
 
     def drop(self, pid):
         self.images.pop(pid, None)
@@ -358,11 +411,11 @@ class ProcMem:
         np_ = new.proc if new is not None else 0
         if op == np_:
             return
-        if op in self.images or op == 0 or True:
-            self.images[op] = self.ms.capture()
+        self.images[op] = self.ms.capture(copy=False)
         img = self.images.get(np_)
         if img is not None:
-            self.ms.restore(img)
+            self.ms.restore(img, copy=False)
+            self.swaps += 1
 
 
 class SimRun:
@@ -371,7 +424,7 @@ class SimRun:
     def __init__(self, root, tape=None, seed=0, *, servertype="ThreadingTCPServer",
                  tls=False, conf=None, handlers="default", preempt_p=0.0, sticky=0.0,
                  step_cap=200000, timeout=60, fsroot=None, start=sched.EPOCH,
-                 procmem=False, policy="random", hot=None, cp_base=0.0):
+                 procmem=False, policy="random", hot=None, cp_base=0.0, trace_hot=False):
         load_repo()
         self.root = root
         self.tape = tape or Tape(seed)
@@ -386,6 +439,8 @@ class SimRun:
                              step_cap=step_cap,
                              trace_prefixes=(REPO + "/pygopherd/", REPO + "/simpletal/"),
                              start=start, policy=policy, hot=hot, cp_base=cp_base)
+        if trace_hot:
+            self.sim.hot_lines = shared_store_lines()
         self.net = simnet.Net(self.sim)
         self.fs = simfs.FsSeam(self.sim, self.fsroot, run_seed=seed)
         self.log = []
@@ -397,6 +452,7 @@ class SimRun:
         self.procmem = procmem
         self.server = None
         self.stop = False
+        self.poll = 0
         self._installed = False
         self.subprocess_calls = 0
 
@@ -504,9 +560,15 @@ class SimRun:
         srv = self.server
         try:
             while True:
-                sim.block(lambda: bool(self.net.accept_q) or self.stop, None, "accept-wait")
+                sim.block(lambda: bool(self.net.accept_q) or self.stop or self.poll > 0,
+                          None, "accept-wait")
                 if self.stop and not self.net.accept_q:
                     break
+                if not self.net.accept_q:
+                    # serve_forever's periodic wake-up (poll_interval) without a request
+                    self.poll -= 1
+                    srv.service_actions()
+                    continue
                 srv._handle_request_noblock()
                 srv.service_actions()
                 self.count("accept_iterations")
@@ -541,7 +603,7 @@ class SimRun:
     # ------------------------------------------------------------ clients
     def client(self, data, *, tls=False, segments=None, delays=None, half_close=True,
                at=0.0, sndbuf=None, drain=None, reset_after=None, send_fault=None,
-               addr=None, hello=None):
+               addr=None, hello=None, pump=None, tail=None):
         """Schedule a client: connect at `at`, send `data` (optionally split at
         the given cut offsets, with a delay before each segment), then
         half-close.  Returns the Conn (available immediately)."""
@@ -573,7 +635,30 @@ class SimRun:
             steps.append((reset_after, conn.client_reset, "reset%d" % conn.id))
         elif half_close:
             steps.append((0.0, conn.client_shut_wr, "fin%d" % conn.id))
+        if tail:
+            # further (delay, bytes-or-None) steps after the main payload; None = FIN
+            steps = [st for st in steps if not st[2].startswith("fin")]
+            for j, (d, data2) in enumerate(tail):
+                if data2 is None:
+                    steps.append((d, conn.client_shut_wr, "fin%d" % conn.id))
+                elif data2 == "RESET":
+                    steps.append((d, conn.client_reset, "reset%d" % conn.id))
+                else:
+                    steps.append((d, (lambda p=data2: conn.client_send(p)), "tail%d.%d" % (conn.id, j)))
         self._chain(steps, 0)
+        if pump:
+            interval, nbytes = pump
+            state = {"n": 0}
+            t_stop = sim.now + at + 900.0
+
+            def pump_fire():
+                conn.client_drain(nbytes)
+                state["n"] += 1
+                if state["n"] < 200000 and sim.now < t_stop and not conn.reset \
+                        and not (conn.server_closed and conn.in_flight == 0):
+                    sim.at(interval, pump_fire, "pump%d" % conn.id)
+
+            sim.at(at + interval, pump_fire, "pump%d" % conn.id)
         if drain:
             # drain: list of (delay_after_previous, nbytes or None)
             dsteps = [(at, lambda: None, "drain-start%d" % conn.id)]
